@@ -16,12 +16,33 @@ fn finish(xs: &mut Xstate, r: &Xresult) -> String {
         xs.last_err_location().map(|l| (l.line, l.col, l.token.to_string())))
 }
 
+/// programs on which the way of driving could plausibly show: `exit` (at top level, inside a word, inside loops),
+/// late-bound words called several times and redefined between calls, errors raised inside called words, output
+/// before a failure, an `exit` code that is not an integer
+fn drive_shape(r: &mut crate::rng::Rng) -> String {
+    let (a, b, n) = (r.range(-5, 50), r.range(0, 9), r.range(1, 6));
+    match r.below(12) {
+        0 => format!("{} exit {}", b, a),
+        1 => format!("{} {} exit", a, b),
+        2 => format!(": q {} exit ; 1 q 2", b),
+        3 => format!("{} 0 do I {} == if {} exit then I loop 7", n + 2, n, b),
+        4 => format!(": w {} 0 do I local x x 2 == if x exit then loop ; 5 w 6", n + 2),
+        5 => format!("late lw : u lw ; : lw {} ; u u : lw {} ; u u u", a, b),
+        6 => format!("late lw : u lw lw + ; : lw {} ; {} 0 do u drop loop u", a, n + 3),
+        7 => format!("late lw : u lw ; : lw {} ; u : lw \"s\" ; u : lw 1 0 / ; u", a),
+        8 => format!("\"before\" print {} var v : f v 0 / ; f \"after\" print", a),
+        9 => "\"x\" exit 1".to_string(),
+        10 => format!("begin {} exit false until 3", b),
+        _ => format!("[ 1 2 3 ] foreach I 2 == if {} exit then loop 9", b),
+    }
+}
+
 pub fn run(ctx: &mut Ctx) {
     let base = Xstate::boot().unwrap();
     let cfg = GenCfg { endless: true, ..GenCfg::default() };
     let mut n_done = 0;
     while n_done < ctx.n {
-        let (src, tags) = gen_program(&mut ctx.rng, &cfg);
+        let (src, tags) = if ctx.rng.chance(10) { (drive_shape(&mut ctx.rng), vec!["drive-shape"]) } else { gen_program(&mut ctx.rng, &cfg) };
         n_done += 1;
         for t in tags.iter() { ctx.tag(&format!("prog:{}", t)); }
         let mut results: Vec<(String, String)> = Vec::new();
